@@ -18,6 +18,7 @@ import os
 import subprocess
 
 from .. import core
+from . import _gen
 
 M64 = (1 << 64) - 1
 # (cache line, page size): bucket size = line/16, min_entries = page/8
@@ -591,6 +592,7 @@ def minimise(exe, sc, budget=60):
 
 
 def run_tier(ctx, quick):
+    _gen.regen(ctx, ["Hash", "Hashmap"], group="Hashmap")      # Gen/Hash.v, Gen/Hashmap.v regenerated + Properties_Gen_Hashmap.v (tools/ctrans.py)
     pr = ctx.coq_properties("Properties/Properties_Hashmap.v")
     ok, log = ctx.coq_make(["theories/Hashmap/Extract.vo"])
     if not ok:
